@@ -27,8 +27,10 @@ pub fn run(case: &Value) -> Value {
             let bytes = load(case);
             let hint = case["hint"].as_str().unwrap_or("");
             let resolved = format_from_stream(hint, &bytes);
+            let detected = container_from_bytes(&bytes);
             json!({"r": "ok",
-                   "detected": container_from_bytes(&bytes),
+                   "detected": detected,
+                   "detected_container": detected.and_then(verif_container_from_format),
                    "hinted": verif_container_from_format(hint),
                    "resolved": resolved,
                    "resolved_container": verif_container_from_format(&resolved),
